@@ -31,6 +31,9 @@ pub struct Stream {
     // ===== 状态管理 =====
     is_closed: Arc<AtomicBool>,
     close_error: Arc<tokio::sync::Mutex<Option<AnyTlsError>>>,
+
+    // Set once this side has announced the end of its data (FIN queued)
+    fin_sent: AtomicBool,
 }
 
 impl Stream {
@@ -57,6 +60,7 @@ impl Stream {
             synack_tx: Arc::new(tokio::sync::Mutex::new(Some(synack_tx))),
             is_closed: Arc::new(AtomicBool::new(false)),
             close_error: Arc::new(tokio::sync::Mutex::new(None)),
+            fin_sent: AtomicBool::new(false),
         };
 
         (stream, synack_rx)
@@ -125,7 +129,26 @@ impl Stream {
         &self,
         data: Bytes,
     ) -> std::result::Result<(), mpsc::error::SendError<(u32, Bytes)>> {
+        // Nothing may follow the end-of-data marker
+        if self.fin_sent.load(Ordering::Acquire) {
+            return Err(mpsc::error::SendError((self.id, data)));
+        }
+        // An empty chunk is the end-of-data marker itself (see send_fin); as data it carries nothing
+        if data.is_empty() {
+            return Ok(());
+        }
         self.writer_tx.send((self.id, data))
+    }
+
+    /// Tell the peer that this side has finished sending (FIN).
+    ///
+    /// The announcement travels on the session's outbound queue as an empty chunk, behind everything already
+    /// submitted on this stream, so the peer sees end-of-stream only after all of it. Only the first call has
+    /// an effect.
+    pub fn send_fin(&self) {
+        if !self.fin_sent.swap(true, Ordering::AcqRel) {
+            let _ = self.writer_tx.send((self.id, Bytes::new()));
+        }
     }
 }
 
@@ -193,7 +216,7 @@ impl AsyncWrite for Stream {
             buf_len
         );
 
-        if self.is_closed.load(Ordering::Relaxed) {
+        if self.is_closed.load(Ordering::Relaxed) || self.fin_sent.load(Ordering::Acquire) {
             tracing::warn!("[Stream] poll_write: Stream {} is closed", stream_id);
             return Poll::Ready(Err(std::io::Error::new(
                 std::io::ErrorKind::BrokenPipe,
@@ -202,6 +225,11 @@ impl AsyncWrite for Stream {
         }
 
         // Send data to session via channel
+        // An empty chunk on the outbound queue means end of data (see send_fin): an empty write queues nothing
+        if buf.is_empty() {
+            return Poll::Ready(Ok(0));
+        }
+
         let data = Bytes::copy_from_slice(buf);
         tracing::trace!(
             "[Stream] poll_write: Sending {} bytes to channel for stream {}",
@@ -237,6 +265,8 @@ impl AsyncWrite for Stream {
     }
 
     fn poll_shutdown(self: Pin<&mut Self>, _cx: &mut Context<'_>) -> Poll<std::io::Result<()>> {
+        // Shutting down the write side tells the peer, after the data already written
+        self.send_fin();
         // Mark as closed
         self.is_closed.store(true, Ordering::Relaxed);
         Poll::Ready(Ok(()))
